@@ -183,6 +183,9 @@ type Result struct {
 	Diverged string
 	NThreads int
 	Trace    []string // only when Options.Trace
+	// Mark is the step at which the harness called Mark(): exploration starts
+	// there, everything before ran under the default schedule (0: from the start)
+	Mark int
 }
 
 // Chooser decides at each point.  enabled >= 1.  Return -1 to stop the
@@ -200,6 +203,8 @@ type Options struct {
 	// KeyRunning includes the identity of the last running thread in state
 	// keys (needed when preemptions are counted).
 	KeyRunning bool
+	// UseMark: the body calls Mark() after its set-up phase.
+	UseMark bool
 	// DataFreeLocks: the harness asserts that no plain memory that influences
 	// control flow is guarded by a mutex (true for the ring buffer, whose
 	// shared words are all atomics); mutexes are then keyed by value.
@@ -223,6 +228,7 @@ type Sched struct {
 	logSeq   uint64
 	nfail    int
 	objXor   uint64
+	useMark  bool
 	dirty    []*Obj // value-keyed objects whose real state changes after the point (atomic words)
 }
 
@@ -278,6 +284,7 @@ func Run(o Options, main func()) *Result {
 	startWatchdog()
 	s := &Sched{opts: o, yield: make(chan *Thread), res: &Result{}, atomics: map[uintptr]*Obj{}, Locals: map[string]interface{}{}}
 	s.epoch = atomic.AddUint64(&epochCtr, 1)
+	s.useMark = o.UseMark
 	s.ClockObj.Label = "clock"
 	s.ClockObj.State = func() uint64 { return uint64(s.clock) }
 	cur = s
@@ -664,6 +671,27 @@ func goImpl(name string, lib bool, fn func()) {
 //
 //go:norace
 func SelfID() uint64 { return hashStr(cur.running.ID) }
+
+// Marked reports whether the exploration phase has begun (always true when the
+// harness never calls Mark).
+//
+//go:norace
+func (s *Sched) Marked() bool { return !s.useMark || s.res.Mark > 0 }
+
+// UseMark announces that the body will call Mark (set by the explorer).
+//
+//go:norace
+func (s *Sched) UseMark() { s.useMark = true }
+
+// Mark tells the explorer that the set-up phase is over: only scheduling
+// points from here on are branched on.
+//
+//go:norace
+func Mark() {
+	if cur != nil && cur.res.Mark == 0 {
+		cur.res.Mark = len(cur.res.Points)
+	}
+}
 
 // Quiesce parks the calling thread until no other thread is enabled.
 //
